@@ -4,7 +4,8 @@
    `last` carries the stimulus so that behaviours can be replayed into a real
    aiohttp.CookieJar.  Domain attribute KINDS (absent, same, parent, child, sibling,
    look-alike, leading-dot parent, trailing-dot, upper-case) are resolved here, on
-   label sequences, into the literal attribute the response carries.            *)
+   label sequences, into the literal attribute the response carries.  Resend re-issues a
+   stored cookie with the same value and other attributes (latest write wins).      *)
 EXTENDS CookieStore
 
 CONSTANTS Hosts,        \* response / request hosts (label sequences)
@@ -95,6 +96,14 @@ Do(e) == /\ steps < MaxSteps
 Receive(h, p, nm, dk, pa, sec, ma, ex) ==
     Do([Blank EXCEPT !.ev = "Receive", !.host = h, !.path = p, !.name = nm, !.val = Len(s.fate) + 1,
                      !.dom = ResolveDom(h, dk), !.pth = pa, !.secure = sec, !.maxage = ma, !.expires = ex])
+\* the origin re-issues a stored cookie: same (name, domain, path) and the SAME value, other
+\* attributes (Secure, lifetime; host-only <-> Domain=host when the setter is the domain itself)
+Resend(c, sec, lt, flip) ==
+    LET ho == IF flip /\ c.domain = c.setter THEN ~c.hostOnly ELSE c.hostOnly
+    IN Do([Blank EXCEPT !.ev = "Receive", !.host = c.setter, !.path = Root, !.name = c.name, !.val = c.value,
+                        !.dom = IF ho THEN DA(FALSE, <<>>, FALSE, FALSE, FALSE)
+                                ELSE DA(TRUE, c.domain, FALSE, FALSE, FALSE),
+                        !.pth = PA(TRUE, c.path), !.secure = sec, !.maxage = lt[1], !.expires = lt[2]])
 Tick == s.now < MaxTime /\ Do([Blank EXCEPT !.ev = "Tick", !.n = 1])
 Clear == s.store # {} /\ Do([Blank EXCEPT !.ev = "Clear"])
 ClearDomain(d) == s.store # {} /\ Do([Blank EXCEPT !.ev = "ClearDomain", !.d = d])
@@ -110,6 +119,7 @@ Lifetimes == {<<ma, 0>> : ma \in MaxAges} \cup {<<-1, ex>> : ex \in Expiries}
 Next ==
     \/ \E h \in Hosts, sh \in RecvShapes, nm \in Names, dk \in DomKinds,
           sec \in BOOLEAN, lt \in Lifetimes : Receive(h, sh[1], nm, dk, sh[2], sec, lt[1], lt[2])
+    \/ \E c \in s.store, sec \in BOOLEAN, lt \in Lifetimes, flip \in BOOLEAN : Resend(c, sec, lt, flip)
     \/ Tick
     \/ Clear
     \/ \E d \in Hosts : ClearDomain(d)
@@ -126,6 +136,8 @@ RecvRand ==
                RandomElement(BOOLEAN), lt[1], lt[2])
 NextSim ==
     \/ \E i \in 1..6 : RecvRand
+    \/ s.store # {} /\ \E i \in 1..2 : Resend(RandomElement(s.store), RandomElement(BOOLEAN),
+                                                 RandomElement(Lifetimes), RandomElement(BOOLEAN))
     \/ Tick
     \/ Clear
     \/ ClearDomain(RandomElement(Hosts))
